@@ -33,7 +33,7 @@ RULE = ('each run = role-built repository (0-4 categories x 0-4 packages with eb
         'listings; non-trivial = an ebuild profile on a repository with at least one package or standard directory; '
         'distinct = distinct seam event-log digest')
 PLAN = {'quick': {'n': 3000, 'budget_s': 90, 'block': 12},
-        'thorough': {'n': 30000, 'budget_s': 1200, 'block': 100}}
+        'thorough': {'n': 120000, 'budget_s': 2400, 'block': 100}}
 ASSUMPTIONS = ['expected placement/typing comes from generator roles (M-policy); empty categories without metadata.xml and packages without ebuilds are not generated (statement silent)']
 
 
